@@ -369,6 +369,49 @@ func C03(c *hx.Ctx) {
 				}
 			}
 		}
+		// later blocks that declare - and use - a larger dictionary than earlier ones, and the other
+		// way round: whatever a reader keeps from one block must fit the next
+		{
+			far := func(dictSize int64, dist int) ref.BlockSpec {
+				e := ref.NewL2Enc(dictSize)
+				raw := MakeData("random", dist, c.Seed+int64(dist))
+				for o := 0; o < len(raw); o += 65536 {
+					end := o + 65536
+					if end > len(raw) {
+						end = len(raw)
+					}
+					kind := "U"
+					if o == 0 {
+						kind = "UD"
+					}
+					e.Add(ref.ChunkSpec{Kind: kind, Raw: raw[o:end]})
+				}
+				if err := e.Add(ref.ChunkSpec{Kind: "LRN", Props: ref.Props{LC: 3, LP: 0, PB: 2}, Ops: []ref.Op{{K: ref.OpMatch, Dist: int64(dist), Len: 200}, {K: ref.OpLit, B: 'x'}, {K: ref.OpRep0, Len: 100}}}); err != nil {
+					c.Inconclusive("far-block: %v", err)
+				}
+				e.Add(ref.ChunkSpec{Kind: "EOS"})
+				return ref.BlockSpec{L2: e.Out, Content: e.Pt, DictCode: leastDictCode(dictSize), WithU: dist%2 == 0}
+			}
+			for li, layout := range [][]ref.BlockSpec{
+				{small(1), far(1<<20, 100000)}, {far(1<<16, 60000), far(1<<20, 900000), small(2)}, {far(1<<20, 900000), small(3), far(1<<16, 60000)},
+				{small(4), {L2: []byte{0}}, far(1<<22, 3000000)},
+			} {
+				var plain []byte
+				for _, b := range layout {
+					plain = append(plain, b.Content...)
+				}
+				file := ref.Serialize([]ref.LStream{ref.BuildStream([]int{4, 1, 10, 0}[li], layout)})
+				if xr := ref.DecodeXZ(file, ref.XZOpts{}); xr.Err != nil || !bytes.Equal(xr.Content, plain) {
+					c.Inconclusive("trusted base: ref rejects its own growing-dictionary layout: %v", xr.Err)
+					continue
+				}
+				streams = append(streams, stream{fmt.Sprintf("gen/growing-dictionary-%d", li), file, plain, []int{4096, 0, 1 << 16}, true})
+				if len(selfFiles) < 400 {
+					selfFiles = append(selfFiles, file)
+					selfPlain.Write(plain)
+				}
+			}
+		}
 		// many blocks: record count >= 128 (two-byte count), sizes on both sides of 128
 		for _, nb := range []int{127, 128, 130} {
 			var layout []ref.BlockSpec
